@@ -12,22 +12,37 @@ SPEC = {
         {"dialect": "fetch-sect-raw", "quick_n": 5000, "thorough_n": 50000},
         {"dialect": "fetch-rel", "quick_n": 10000, "thorough_n": 100000, "judge": "judge-c13-rel"},
     ],
-    "oracles": [],
+    "oracles": [
+        # whole server over TCP, storage states (harness/o_c13wire.go): one message per case, created by APPEND or by the
+        # connector, fetched (RFC822.SIZE, BODY[], RFC822*, HEADER, TEXT, HEADER.FIELDS with the id key, its parts,
+        # partials around 0 / the id line / the end) fresh, again, after its cache file was removed / corrupted /
+        # truncated / the cache directory removed behind the server's back (the FETCH or SEARCH that restores it from the
+        # connector), AGAIN after that restore, after a restart, from a second session, after COPY / MOVE / re-APPEND of
+        # the answer, after a connector MessageUpdated.  The internal id is the name of the cache file that appears.
+        # judge-c13-wire (Driver/DC13Wire.lean): all answers present and framed, the answers to one item identical in
+        # every phase, SIZE = |BODY[]|, RFC822 = BODY[], HEADER ++ TEXT = BODY[], partial = slice, and every answer =
+        # the model's section of (literal + exactly one id line); c13-wire-model: Model/LitCache.lean (getLiteral,
+        # create, update) over the same steps agrees with the wire on which bytes every fetch works on
+        {"name": "c13wire", "quick_args": ["-n", "90", "-big", "3"], "thorough_args": ["-n", "1200", "-big", "9"], "timeout": 1500},
+    ],
     "trusted_base": [
         "Lean 4.33.0 kernel; axioms limited to propext, Classical.choice, Quot.sound (audited per theorem)",
         "hand-written model GluonModel/Model/Rfc822.lean of rfc822.Split/headerParser.next/NewHeader/Fields/FieldsNot/SetHeaderValue(NoMemCopy)/ByteScanner/parse/load/Part, itemBodyLiteral.WithPartial/String, the RFC822 items and mailbox_fetch.go fetchBodySection/renderSection/fetchAttributeBodySection, tied to the real functions by six correspondence dialects (differential testing, not proof)",
         "reference semantics GluonModel/Spec/Rfc822Spec.lean (header fields read off the physical lines, drop/take partial, {N} CRLF framing) that the judges evaluate the implementation's answers against",
         "facts translator harness/facts_rfc822.go (go/ast): value of ids.InternalIDKey, the key argument of every SetHeaderValue* call site, the functions called in rfc822.NewHeader / Header.Fields / Header.FieldsNot and the loops, conditions, statements and byte range of rfc822.foldKey (name_fold_is_foldkey), the `number > math.MaxUint32` rejection in rfcparser.ParseNumber and the parsers handleBodyFetchAttribute reads <offset.count> with",
+        "hand-written model GluonModel/Model/LitCache.lean of State.getLiteral (store hit / download + SetHeaderValue + write back) and of the literal side of message creation and applyMessageUpdated, tied by the oracle c13wire (dialect c13-wire-model over the same steps as the wire) and by the regenerated fact Facts/LitCache.lean (harness/facts_c13lit.go: the functions of internal/state that call GetMessageLiteral, and that every cache write in them passes the result of rfc822.SetHeaderValue* with ids.InternalIDKey assigned in front of the write)",
+        "oracle harness/o_c13wire.go (whole server over TCP, dummy connector, cache files manipulated in the store directory; its FETCH response parser; the internal id is read off the name of the cache file that appears) and the Lean judge Driver/DC13Wire.lean",
         "verif hooks internal/response/verif_export_partial.go, internal/state/verif_export_fetch.go, verifhooks/partial.go (wrappers that call the package's own constructors / fetchAttributeBodySection and recover panics)",
         "Go standard library pieces modelled by hand: textproto.CanonicalMIMEHeaderKey, bytes.TrimSpace emptiness (Unicode White_Space), bytes.Index, fmt %v of an int, strings.ToUpper (utf8.DecodeRune, strings.Map's U+FFFD replacement, a partial unicode.ToUpper table)",
     ],
     "assumptions": [
         "mime.ParseMediaType (+ mergeMultiline and the non-ASCII strip in ParseMIMEType) is not modelled: theorems quantify over every Content-Type oracle; in the correspondence the oracle table is what the real function answered at generation time",
         "strings.ToUpper on the rendered section name (it contains the requested HEADER.FIELDS names, arbitrary client strings) is modelled rune by rune: UTF-8 decoding as utf8.DecodeRune, ill-formed bytes become U+FFFD, case pairs of ASCII plus the non-ASCII runes with an ASCII image (U+0131, U+017F); every other non-ASCII rune is taken as caseless and the tie only generates caseless ones among them. Field names themselves are compared in rfc822.foldKey's normal form (ASCII letters lower-cased, every other byte unchanged; fix 047f712), modelled exactly for all bytes",
-        "the stored literal reaches FETCH unchanged between SetHeaderValue and getLiteral (store round trip is C09)",
+        "the cache file, while it is readable, holds what was written to it (store round trip is C09); what getLiteral does when it is not readable is modelled (Model/LitCache.lean) and exercised on the wire (oracle c13wire: removed, corrupted, truncated file, removed directory, restart)",
+        "Model/LitCache.lean abstracts the cache and the connector as finite maps keyed by the internal id, store.Get failing for whatever reason as 'no entry', and applyMessageUpdated only for update literals without an id line of their own; concurrent restores of one message by two sessions are not modelled",
         "wire transport of the rendered items (session writer) and the command parser are not part of this check beyond the regenerated fact that parsed numbers are at most 2^32-1 (partial_no_panic_for_parsed is stated for that range; WithPartial outside it is compared model-vs-code only in the *-raw dialects and not judged)",
         "Go int is 64 bit (amd64/arm64); WithPartial arithmetic is modelled as two's-complement int64",
     ],
-    "explanation": "Lean theorems for all byte strings / paths / field lists / offsets over a model of the rfc822 package, WithPartial and the section computation of FETCH; the model is tied to the real code by differential testing through the public rfc822 API and verif hooks; judges evaluate the property's relations (header++text=literal, part bytes by construction, fields/fieldsNot = the reference selection by ASCII-case-insensitive name over field names from the whole RFC 5322 range (non-token bytes, digits, case twins, near misses; corpus m-name-bytes-* enumerates every legal name byte), partial = drop/take, literal framing) on the implementation's answers",
+    "explanation": "(storage states: getLiteral_stable / getLiteral_restores_created / created_dropped_restored_agree over Model/LitCache.lean say that a message reads the same bytes whether its cache file is in place or had to be restored from the connector, and on every later read; oracle c13wire checks exactly that on the wire) Lean theorems for all byte strings / paths / field lists / offsets over a model of the rfc822 package, WithPartial and the section computation of FETCH; the model is tied to the real code by differential testing through the public rfc822 API and verif hooks; judges evaluate the property's relations (header++text=literal, part bytes by construction, fields/fieldsNot = the reference selection by ASCII-case-insensitive name over field names from the whole RFC 5322 range (non-token bytes, digits, case twins, near misses; corpus m-name-bytes-* enumerates every legal name byte), partial = drop/take, literal framing) on the implementation's answers",
     "rule": "distinct op lines; non-trivial = the judge classified the case as exercising the property (existing part, well-formed header with fields, partial within int64, top-level relations)",
 }
